@@ -1698,7 +1698,10 @@ impl RefI for TrendStrength {
 		let e_acc = crate::errm::radius(crate::reg::Class::Nested, nf, self.t, self.mag, 8.0);
 		let num = Ap::new(sxy, e_acc * nf * nf);
 		let den2 = Ap::new(sxx * syy, sxx * crate::errm::radius(crate::reg::Class::Accum, nf, self.t, 2.0 * nf * self.mag * self.mag, 8.0));
-		let value = if den2.lo() > 0.0 { num / den2.sqrt() } else { Ap::undefined() };
+		// range of the ValueType: the implementation forms k * (sum y^2 - mean * sum y) with k ~ n^4/12; beyond the type's range
+		// (f32: |y| ~ 1e15 with n > 100) that overflows although the correlation itself is in [-1,1] - outside the error model
+		let overflow = sxx * nf * self.mag * self.mag > (V::MAX as f64) / 64.0;
+		let value = if den2.lo() > 0.0 && !overflow { num / den2.sqrt() } else { Ap::undefined() };
 		// code polarity and rule (doc differs, see DESIGN 5 #16)
 		let under = self.cu.under(value, Ap::exact(self.zone));
 		let above = self.ca.above(value, Ap::exact(-self.zone));
